@@ -271,7 +271,13 @@ pub fn strains_vec_program(rng: &mut Rng, max_len: usize) -> Result<u64, String>
             return Err(format!("{name} differs from the plain list after {trace:?}: list has {:?}, model {m:?}, sum()={:?}", v.iter().collect::<Vec<f64>>(), v.sum()));
         }
     }
-    // terminal conversion
+    // terminal conversion (half of the lists that still contain zeros are cleaned first, so that both conversions also see
+    // lists without any zero entry - typically with spare capacity left from the pushes)
+    if !nonzero(&m) && rng.chance(0.5) {
+        v.retain_non_zero();
+        m.retain(|x| x.to_bits() != 0);
+        trace.push("retain_non_zero".into());
+    }
     let t = if nonzero(&m) && rng.chance(0.5) {
         // SAFETY: the model says there is no zero left (documented contract)
         unsafe { v.transmute_into_vec() }
